@@ -1032,7 +1032,11 @@ func main() {
 	}
 	sc := bufio.NewScanner(os.Stdin)
 	sc.Buffer(make([]byte, 1<<20), 1<<26)
-	w := bufio.NewWriter(os.Stdout)
+	// kernels print diagnostics with fmt.Println: keep the result protocol on the real stdout and
+	// send everything else that is written to os.Stdout to stderr
+	realStdout := os.Stdout
+	os.Stdout = os.Stderr
+	w := bufio.NewWriter(realStdout)
 	defer w.Flush()
 	for sc.Scan() {
 		f := strings.Fields(sc.Text())
